@@ -43,7 +43,7 @@ def strace_crosscheck(sh):
     if r.get('status') == 'ok':
         sh.count('strace_syscalls_matched', r['matched'])
         sh.count('strace_windows', r['api_call_windows'])
-        sh.samples.append({'strace_cross_check': r})
+        sh.notes.append('strace cross-check: %r' % (r,))
     elif r.get('status') == 'hole':
         sh.inconclusive.append('audit hook misses system calls the library makes: %r' % (r['examples'],))
     else:
